@@ -1,4 +1,5 @@
 import SamVerif.Lemmas.OptKernel
+import SamVerif.Model.OptTempPhases
 /-!
 # C02 — optimisation passes never change output or termination: property theorems
 
@@ -899,3 +900,75 @@ example : inlineCall (· + 1000) { ps := [0, 1], body := [.bin 2 .mul (.var 0) (
         = [.bin 1002 .mul (.var 5) (.lit 3), .print (.var 1002), .bin 9 .add (.var 1002) (.lit 0)] := by decide
 
 end SamVerif.Opt
+
+/-! ## 12. Temporary names across phases: the round driver keeps the heap's counter ahead of every
+name it issued (`optimize_sources`, lib.rs:92-124) -/
+namespace SamVerif.OptTemp
+
+theorem mem_issued (s n x : Nat) : x ∈ issued s n ↔ s ≤ x ∧ x < s + n := by
+  simp [issued, List.mem_range']
+  constructor
+  · rintro ⟨i, hi, rfl⟩; omega
+  · intro h; exact ⟨x - s, by omega, by omega⟩
+
+/-- FULL STRENGTH: if the second phase starts its counter at or above every name the first phase
+issued, no name is issued twice. -/
+theorem phases_disjoint (s1 n1 s2 n2 : Nat) (h : s1 + n1 ≤ s2) : (issued s1 n1 ++ issued s2 n2).Nodup := by
+  rw [List.nodup_append]
+  refine ⟨List.nodup_range' .., List.nodup_range' .., ?_⟩
+  intro a ha b hb
+  rw [mem_issued] at ha hb
+  omega
+
+/-- … and a stale start collides as soon as both phases draw a name -/
+theorem stale_counter_collides (s1 n1 s2 n2 : Nat) (h1 : s1 ≤ s2) (h2 : s2 < s1 + n1) (hn : 0 < n2) :
+    ¬ (issued s1 n1 ++ issued s2 n2).Nodup := by
+  rw [List.nodup_append]
+  rintro ⟨_, _, hd⟩
+  exact hd s2 ((mem_issued ..).mpr ⟨h1, h2⟩) s2 ((mem_issued ..).mpr ⟨Nat.le_refl _, by omega⟩) rfl
+
+/-- the invariant `optimize_sources` owes to the next phase (and which the harness checks on every
+optimised program): every issued id is below the heap's next id, for any number of rounds and any
+number of requests per round -/
+theorem rounds_invariant (h : Nat) (ns : List Nat) :
+    h ≤ (runRounds h ns).1 ∧ ∀ x, x ∈ (runRounds h ns).2 → h ≤ x ∧ x < (runRounds h ns).1 := by
+  induction ns generalizing h with
+  | nil => simp [runRounds]
+  | cons n r ih =>
+    have := ih (h + n)
+    simp only [runRounds]
+    refine ⟨by omega, ?_⟩
+    intro x hx
+    simp only [List.mem_append, mem_issued] at hx
+    rcases hx with hx | hx
+    · omega
+    · have := this.2 x hx; omega
+
+/-- hence the lowering phase, which starts at the heap's next id, never re-issues an optimizer name -/
+theorem lowering_disjoint (h : Nat) (ns : List Nat) (m : Nat) :
+    ∀ x, x ∈ (runRounds h ns).2 → x ∉ issued (runRounds h ns).1 m := by
+  intro x hx hm
+  have := (rounds_invariant h ns).2 x hx
+  rw [mem_issued] at hm
+  omega
+
+/-- Without the sync after the last round the invariant fails whenever that round issued a name
+(the seeded-fault class C02c): the lowering phase re-issues it. -/
+theorem missing_last_sync_collides (h n m : Nat) (ns : List Nat) (hn : 0 < n) (hm : 0 < m) :
+    ∃ x, x ∈ (runRoundsStale h (ns ++ [n])).2 ∧ x ∈ issued (runRoundsStale h (ns ++ [n])).1 m := by
+  induction ns generalizing h with
+  | nil =>
+    refine ⟨h, ?_, ?_⟩ <;> simp [runRoundsStale, mem_issued] <;> omega
+  | cons k r ih =>
+    obtain ⟨x, hx1, hx2⟩ := ih (h + k)
+    have hne : r ++ [n] ≠ [] := by simp
+    cases hr : r ++ [n] with
+    | nil => exact absurd hr hne
+    | cons a t =>
+      rw [hr] at hx1 hx2
+      refine ⟨x, ?_, ?_⟩
+      · simp only [List.cons_append, hr, runRoundsStale, List.mem_append]; exact Or.inr hx1
+      · simp only [List.cons_append, hr, runRoundsStale]; exact hx2
+example : (runRounds 10 [2, 0, 3]).1 = 15 ∧ (runRoundsStale 10 [2, 0, 3]).1 = 12 := by decide
+
+end SamVerif.OptTemp
